@@ -134,7 +134,31 @@ def probe_needs_input_clears_pause():
     return res
 
 
+def probe_content_coding_lowercased():
+    """Behavioural probe: parse a response head and a request head carrying `Content-Encoding: GZIP` (and Zstd / BR /
+    Deflate) with the real parsers and look at `msg.compression` -- the value DeflateBuffer will compare with
+    "gzip"/"deflate"/"br"/"zstd".  -> {spelling: compression as parsed}"""
+    from aiohttp.http_parser import HttpRequestParserPy, HttpResponseParserPy
+    from aiohttp.base_protocol import BaseProtocol
+    loop = asyncio.new_event_loop()
+    res = {}
+    try:
+        for resp in (True, False):
+            for val in ("GZIP", "Zstd", "BR", "Deflate"):
+                proto = BaseProtocol(loop)
+                parser = (HttpResponseParserPy if resp else HttpRequestParserPy)(proto, loop, 2 ** 16)
+                start = b"HTTP/1.1 200 OK\r\n" if resp else b"POST / HTTP/1.1\r\nHost: a\r\n"
+                msgs, _, _ = parser.feed_data(start + b"Content-Encoding: " + val.encode() + b"\r\nContent-Length: 3\r\n\r\n")
+                res[("resp:" if resp else "req:") + val] = msgs[0][0].compression
+    finally:
+        loop.close()
+    return res
+
+
 def generate(repo):
+    cc = probe_content_coding_lowercased()
+    cc_flag = all(v == k.split(":")[1].lower() for k, v in cc.items())
+    cc_detail = " ".join(f"{k}->{v}" for k, v in cc.items())
     res = probe_needs_input_clears_pause()
     sites = {k: v for k, v in res.items() if not k.endswith("(control)")}
     flag = all(sites.values())
@@ -146,6 +170,12 @@ def generate(repo):
         "returns PAYLOAD_NEEDS_INPUT has `_paused == False` afterwards, at every such return\n"
         f"(sites: {detail}) -/\n"
         f"def needsInputClearsPause : Bool := {'true' if flag else 'false'}\n"
+        "/-- probe: `msg.compression` of a head with `Content-Encoding: GZIP` / `Zstd` / `BR` / `Deflate` is the lower-case\n"
+        "coding name (content codings are case-insensitive, RFC 9110 8.4.1), so `DeflateBuffer` picks the decoder, the raw-deflate\n"
+        "sniff and the deflate eof check of that coding.  Not consulted by the pipeline model (its `sniff`/`checkEof`/decoder\n"
+        "columns are taken per run from the compression the real parser reported); recorded so that a change is visible and\n"
+        f"rebuilds the proofs.  ({cc_detail}) -/\n"
+        f"def contentCodingLowercased : Bool := {'true' if cc_flag else 'false'}\n"
         "end Aio.Gen.C09\n")
     return {"AioModel/Generated/C09.lean": body}
 
@@ -952,7 +982,9 @@ def _run_case(case, loop, rec, max_ops):
     if final is None:
         final = ("runaway", "op-budget")
         runaway[0] = ("op-budget", f"{len(trace)} operations without reaching end-of-body or an error (budget {max_ops})")
-    he = coding_value(case)      # DeflateBuffer compares the value as sent: `== "deflate"` decides sniff and the eof check
+    # oracle columns of the model: what the code under test decided -- DeflateBuffer compares `msg.compression` (as the real
+    # parser reported it for this very message) with "deflate" for the raw-deflate sniff and the eof check
+    he = getattr(p.msg, "compression", None)
     fr = {"L": f"L{len(wire)}", "C": "C", "E": "E"}[case["framing"]]
     lax = 1 if (case["side"] == "client") else 0
     ks = []
@@ -976,7 +1008,7 @@ def _run_case(case, loop, rec, max_ops):
             "tr_paused": p.tr.paused, "size": pstate._size, "n_ops": len(trace),
             "exc_pending": None if pstate._exception is None else err_name(pstate._exception),
             "stale_class": stale_birth[0] or "no-surviving-pause-flag-seen", "more_at_close": more_at_close[0],
-            "parked_with_exc": p.parked_with_exc, "runaway": runaway[0]}
+            "parked_with_exc": p.parked_with_exc, "runaway": runaway[0], "compression": getattr(p.msg, "compression", None)}
     return {"line": line, "impl": impl, "info": info}
 
 
@@ -993,7 +1025,8 @@ def oracle(ctx, case, info):
     limit = case["limit"]
     c = {k: case[k] for k in case}
     # --- content codings are case-insensitive: `Content-Encoding: GZIP` must decode like `gzip`
-    if case.get("ce_variant", "lower") != "lower":
+    if case.get("ce_variant", "lower") != "lower" and info.get("compression") != header_encoding(enc):
+        # the parser handed the spelling as sent to DeflateBuffer (code before the repair): wrong decoder
         fam = header_encoding(enc)
         good = ref[0] == "ok" and ((final == ("eof",) and delivered == ref[1]) or
                                    (final[0] == "stuck" and case["framing"] == "E" and not info["closed"]))
